@@ -1,6 +1,7 @@
 (* RunC04.v — correspondence runner for C04. *)
 Require Import Ommx.Num Ommx.Poly Ommx.Msg Ommx.Eval Ommx.Tree Ommx.Arith Ommx.Inst Ommx.Relax
-        Ommx.RunC02 Ommx.RunC03 Ommx.RunC05 Ommx.RunC14 Ommx.Transform Ommx.RunTransform Ommx.Subst.
+        Ommx.RunC02 Ommx.RunC03 Ommx.RunC05 Ommx.RunC14 Ommx.Transform Ommx.RunTransform Ommx.Subst
+        Ommx.Samples Ommx.RunSamples.
 From Coq Require Import String.
 Open Scope string_scope.
 
@@ -10,6 +11,28 @@ Fixpoint substitute_all (I : instance) (Rs : list repl) : option instance :=
   match Rs with
   | [] => Some I
   | R :: Rs' => match inst_substitute tiny_eps I R with Some I' => substitute_all I' Rs' | None => None end
+  end.
+
+(* values of two evaluations, ignoring the used-id lists of the constraint records (those follow
+   the representation: a kept zero-coefficient term still "uses" its variables) *)
+Definition sol_eqb_values (dvids : list N) (a b : solution) : bool :=
+  qeqb (so_objective a) (so_objective b) && Bool.eqb (so_feasible a) (so_feasible b) &&
+  Bool.eqb (so_feasible_relaxed a) (so_feasible_relaxed b) && state_eqb_on dvids (so_state a) (so_state b) &&
+  list_eqb (fun x y => (ev_id x =? ev_id y)%N && (ev_eq x =? ev_eq y)%Z && qeqb (ev_value x) (ev_value y) &&
+                        trees_eqb (ev_meta x) (ev_meta y) &&
+                        optb (fun p q => tree_eqb (fst p) (fst q) && tree_eqb (snd p) (snd q)) (ev_removed x) (ev_removed y))
+           (so_evaluated a) (so_evaluated b).
+
+(* the evaluation of the SDK is judged on the message the SDK actually holds (its own substituted
+   instance G, already checked to be the expected one J as formal polynomials): used ids follow the
+   representation; the VALUES must be those of evaluating J *)
+Definition judge_subst_eval (J G : instance) (s : state) (ev : tree) : tree :=
+  match inst_eval G s, inst_eval J s with
+  | Some mG, Some mJ =>
+      if negb (sol_eqb_values (map dv_id (i_dvs J)) mG mJ)
+      then badcase "MODEL: evaluating the SDK's substituted instance differs in value from evaluating the expected one"
+      else judge_inst_eval G s ev
+  | _, _ => judge_inst_eval J s ev
   end.
 
 Definition run_C04 (case : tree) : tree :=
@@ -47,7 +70,10 @@ Definition run_C04 (case : tree) : tree :=
           | Some J =>
               match judge_instance (Some J) res "inst_substitute" with
               | L (A "agree" :: _) =>
-                  match judge_inst_eval J s' ev with
+                  let G := match ok_payload res with
+                           | Some p => match d_instance p with Some G0 => G0 | None => J end
+                           | None => J end in
+                  match judge_subst_eval J G s' ev with
                   | L (A "agree" :: _) => agree ["inst-subst"; match Rs with [_] => "one-step" | _ => "chain" end]
                   | v => v
                   end
